@@ -48,6 +48,8 @@ def run_vx(unit_list, units, workdir):
                     it['contains_as_loop'] = True
                 if e.opts.get('helpers'):
                     it['helpers'] = True
+                if e.opts.get('text_out'):
+                    it['text_out'] = True
                 if 'vec_receivers' in e.opts:
                     it['vec_receivers'] = e.opts['vec_receivers'].split(',')
                 for k in ('into_as', 'slice_before', 'ret_name', 'slice_from', 'slice_block', 'frag_name', 'frag_params', 'frag_ret'):
@@ -55,7 +57,7 @@ def run_vx(unit_list, units, workdir):
                         it[k] = e.opts[k]
                 if 'opaque_fields' in e.opts:
                     it['opaque_fields'] = e.opts['opaque_fields'].split(',')
-                for k in ('custom_iters', 'box_receivers', 'opaque_calls'):
+                for k in ('custom_iters', 'box_receivers', 'opaque_calls', 'eager_receivers'):
                     if k in e.opts:
                         it[k] = [x.strip() for x in e.opts[k].split(',')]
                 bl = (shapes().get("%s :: %s" % (e.file, e.sel)) or {}).get('loops')
